@@ -1,6 +1,7 @@
 (* Vec/RvFindings.v — executable agreement checker between the raw-vector model and the reference
-   vector (u64 elements), the decidable history classes (discipline, known classes), the
-   `_refuted` witnesses of the full statements, and the small-scope theorems.  *)
+   vector (u64 elements), the decidable history classes (discipline; the class of the repaired findings 3/4),
+   the histories of the repaired defects, and the small-scope alphabets.  No known class is left for raw
+   vectors: the `_refuted` witnesses of findings 3/4 agree with the reference since the repair of write(). *)
 From Anydb Require Import Common.Base Common.LE Vec.RegionSpec Vec.RvBase Vec.RvChange Vec.RvModel
   Vec.RvRollback Vec.RvSpec Vec.RvInst.
 
@@ -73,7 +74,8 @@ Fixpoint disciplined_from (edited : bool) (a : w_sv) (h : list w_op) : bool :=
   end.
 Definition disciplined (k0 : N) (h : list w_op) : bool := disciplined_from false (w_sinit k0) h.
 
-(* findings 3 and 4: a rollback that makes the vector LONGER (it undoes a truncating commit) *)
+(* the class of the repaired findings 3 and 4: a rollback that makes the vector LONGER (it undoes a truncating
+   commit).  No statement excludes it any more; it is kept to show that the histories now covered include it. *)
 Fixpoint kc_rollback_grows_from (a : w_sv) (h : list w_op) : bool :=
   match h with
   | [] => false
@@ -81,12 +83,9 @@ Fixpoint kc_rollback_grows_from (a : w_sv) (h : list w_op) : bool :=
     let a' := fst (w_sstep a o) in
     (match o with Rollback | RollbackBefore _ => slen a <? slen a' | _ => false end) || kc_rollback_grows_from a' t
   end.
-Definition KnownClass_rollback_of_truncation (k0 : N) (h : list w_op) : bool := kc_rollback_grows_from (w_sinit k0) h.
+Definition Class_rollback_of_truncation (k0 : N) (h : list w_op) : bool := kc_rollback_grows_from (w_sinit k0) h.
 
-(* the only class left after the repairs 008f3d2, 66ce91f, 84e80e2, 66f1482, 533ea26 *)
-Definition known (k0 : N) (h : list w_op) : bool := KnownClass_rollback_of_truncation k0 h.
-
-(* ---- witnesses ---------------------------------------------------------------------------------------- *)
+(* ---- the histories of the repaired findings 3/4 ---------------------------------------------------------- *)
 Definition pushes (n : nat) : list w_op := map (fun i => Push (i + 100)) (seqN 0 n).
 
 (* 3: 10 values, commit(1); truncate to 5, commit(2); rollback; push; write() (here inside a commit) *)
@@ -94,8 +93,25 @@ Definition wit3 : list w_op := pushes 10 ++ [Commit 1; Truncate 5; Commit 2; Rol
 (* 4: same; rollback; delete_at(6); write() *)
 Definition wit4 : list w_op := pushes 10 ++ [Commit 1; Truncate 5; Commit 2; Rollback; Delete 6; Commit 2].
 
-Lemma wit3_refutes : disciplined 3 wit3 = true /\ agree 3 wit3 = false. Proof. vm_compute. auto. Qed.
-Lemma wit4_refutes : disciplined 3 wit4 = true /\ agree 3 wit4 = false. Proof. vm_compute. auto. Qed.
+(* the LAST restored slot deleted before the commit: before the repair the region ended one slot short of stored_len *)
+Definition wit_last : list w_op := pushes 27 ++ [Commit 1; Truncate 25; Commit 2; Rollback; Delete 26; Commit 2].
+(* both at once, then two more rollbacks: back over the re-made commit and over the first one *)
+Definition wit34 : list w_op :=
+  pushes 10 ++ [Commit 1; Truncate 5; Commit 2; Rollback; Delete 6; Push 7; Update 8 1; Commit 2; Rollback; Rollback].
+
+Lemma wit34_agree :
+  (disciplined 3 wit3 = true /\ Class_rollback_of_truncation 3 wit3 = true /\ agree 3 wit3 = true) /\
+  (disciplined 3 wit4 = true /\ Class_rollback_of_truncation 3 wit4 = true /\ agree 3 wit4 = true) /\
+  (disciplined 3 wit_last = true /\ Class_rollback_of_truncation 3 wit_last = true /\ agree 3 wit_last = true) /\
+  (disciplined 3 wit34 = true /\ Class_rollback_of_truncation 3 wit34 = true /\ agree 3 wit34 = true).
+Proof. vm_compute. auto 20. Qed.
+(* after each of them the region backs every stored slot (stored_len = on-disk length) and nothing is buffered *)
+Definition settled (s : w_rv) : bool :=
+  (stored_len s =? real_stored_len s) && (len (pushed s) =? 0) && (len (updated s) =? 0).
+Lemma wit34_settled :
+  settled (u64_run (w_init 3) wit3) = true /\ settled (u64_run (w_init 3) wit4) = true /\
+  settled (u64_run (w_init 3) wit_last) = true /\ stored_len (u64_run (w_init 3) wit_last) = 27.
+Proof. vm_compute. auto. Qed.
 
 (* the histories that exhibited the repaired defects now agree with the reference *)
 Definition fixed7 : list w_op := [Push 1; Delete 0; Update 0 2].
@@ -119,7 +135,7 @@ Fixpoint all_hist (alpha : list w_op) (n : nat) : list (list w_op) :=
   | S m => [] :: flat_map (fun h => map (fun o => o :: h) alpha) (all_hist alpha m)
   end.
 Definition ok_hist (k0 : N) (h : list w_op) : bool :=
-  negb (disciplined k0 h) || known k0 h || agree k0 h.
+  negb (disciplined k0 h) || agree k0 h.
 
 Definition alpha_c03 : list w_op :=
   [Push 7; Truncate 0; Truncate 1; Write; Reimport; Reset; Update 0 9; Update 1 9; Delete 0; Delete 1; Take 0; Fill 5].
